@@ -33,7 +33,7 @@ CLAIMED.update({
    technique='contract-based deductive verification: AST symbolic executor over the real functions with sidecar contracts (Boogie-style heap, loop invariants, calls by contract), typed quantifier instantiation -> QF VCs (z3); bounded-scope refutation + native replay',
    level='proof',
    text='Well-formedness (indices in range, single producer, execution order, graph outputs in range, inserted op placed after the producer and before the first consumer) is proved as a postcondition of the real insert_quant / insert_dequant / add_op_code / add_new_activation_tensor for every graph size, operand count and consumer list (ghost producer map; all loops by invariant). '
-        'The performer bookkeeping (_create_op_id_map, _update_op_id_map, _apply_single_transformation, _update_instructions), the graph facts every instruction is built from (_tensor_info_generator: one record per tensor, producer = first operator that outputs it, consumers = marker first then every reader once, ascending), model-wide tensor-name uniqueness (_check_tensor_names_are_unique) and uniqueness of inserted names (get_unique_tensor_name) are under contract as well. The vertical optimisation of the instruction generator (_apply_vertical_optimization: which instruction(s) replace each consumer rule, producer rule kept iff it still has consumers, list.remove never raises) and _produce_transformation_for_vertical_opt (one instruction per consumer group, every member named once, for an arbitrary enumeration of the group set) are under contract; consumer grouping, the second _produce_* builder and the generator->performer composition are covered only by labelled bounded stand-ins.',
+        'The performer bookkeeping (_create_op_id_map, _update_op_id_map, _apply_single_transformation, _update_instructions), the graph facts every instruction is built from (_tensor_info_generator: one record per tensor, producer = first operator that outputs it, consumers = marker first then every reader once, ascending), model-wide tensor-name uniqueness (_check_tensor_names_are_unique) and uniqueness of inserted names (get_unique_tensor_name) are under contract as well. The vertical optimisation of the instruction generator (_apply_vertical_optimization: which instruction(s) replace each consumer rule, producer rule kept iff it still has consumers, list.remove never raises) and _produce_transformation_for_vertical_opt (one instruction per consumer group, every member named once, for an arbitrary enumeration of the group set) are under contract, and so is the COMPOSITION _quant_params_to_transformation_insts (modular, callees by contract: layout of the instruction list = producer rules but the last ++ vertical result ++ remaining consumer instructions, every callee called with the arguments and under the whole precondition its contract states, validity check on the returned record; 74 obligations); its two callees without a functional contract (_group_consumer_transformations, the second _produce_* builder) have their frames discharged by the may-mutate analysis and their return value by an AST pattern; what they COMPUTE (grouping, laminarity) is covered only by labelled bounded stand-ins.',
    note='Unchecked: LiteRT allocate/invoke (external runtime); flatbuffer serializer fidelity; object-API classes modelled as attribute bags; numpy int32 index arrays as int lists. _apply_transformations / transform_graph are dataflow patterns on the real AST. Known finding: LiteRT aborts the process for a 16-bit ADD with a degenerate calibrated output range (replayed in a child process).',
    design='§4 C01'),
  'C11': dict(
@@ -57,8 +57,8 @@ CLAIMED.update({
  'C02': dict(
    technique='contract-based deductive verification: AST symbolic executor over the real insert_quant/insert_dequant and TransformationPerformer code with sidecar contracts (whole-view postconditions, frames, ghost op-id invariant), typed quantifier instantiation -> QF VCs (z3)',
    level='proof',
-   text='Skeleton clauses as whole-view postconditions of the real insert_quant/insert_dequant (original operators keep object, order, opcode, outputs; ONLY the listed consumers are rewired, every other operand of every operator unchanged; graph outputs rewired iff the graph-output marker is listed; graph inputs, tensor names/shapes/buffers unchanged) and the op-id bookkeeping of _apply_single_transformation/_update_op_id_map (arguments handed to the transformation are the current positions of exactly the listed operators; map re-established) for all graph sizes. Signature remapping (_remap_signature_outputs: every signature output that named an old graph output names the corresponding new one, for any signature/subgraph arrangement) and _tensor_info_generator are under contract; the generator->performer composition only by the labelled bounded end-to-end stand-in.',
-   note='Unchecked: serializer fidelity; object-API attribute-bag model; _apply_transformations / transform_graph are dataflow patterns on the real AST; consumer grouping and the _produce_* list builders of the instruction generator only through the bounded stand-in (_apply_vertical_optimization is under contract).',
+   text='Skeleton clauses as whole-view postconditions of the real insert_quant/insert_dequant (original operators keep object, order, opcode, outputs; ONLY the listed consumers are rewired, every other operand of every operator unchanged; graph outputs rewired iff the graph-output marker is listed; graph inputs, tensor names/shapes/buffers unchanged) and the op-id bookkeeping of _apply_single_transformation/_update_op_id_map (arguments handed to the transformation are the current positions of exactly the listed operators; map re-established) for all graph sizes. Signature remapping (_remap_signature_outputs: every signature output that named an old graph output names the corresponding new one, for any signature/subgraph arrangement) and _tensor_info_generator are under contract, as are _apply_vertical_optimization, _produce_transformation_for_vertical_opt and the composition _quant_params_to_transformation_insts (callees by contract, call-site obligations = their whole preconditions); the orchestration of the performer (_apply_transformations, transform_graph) as dataflow patterns; what consumer grouping computes only by the labelled bounded end-to-end stand-in.',
+   note='Unchecked: serializer fidelity; object-API attribute-bag model; _apply_transformations / transform_graph are dataflow patterns on the real AST; _group_consumer_transformations and the second _produce_* builder have frames (may-mutate analysis) and return-value patterns only; their results are covered by the bounded stand-in. ASSUMED in the composition proof: a Python list object is never a TransformationInst record (typing).',
    design='§4 C02'),
  'C18': dict(
    technique='contract-based deductive verification: CPython-executed symbolic arrays (metrics, dequantisation) -> QF VCs (z3); AST symbolic executor (pyvc, ordered-map model with pop) for ComparisonResult.add_new_signature_results, compare_model, validate wiring',
@@ -75,7 +75,7 @@ CLAIMED.update({
  'C03': dict(
    technique='contract-based deductive verification: exhaustive native execution of the real mode-selection function over the finite config skeleton with opaque integers; AST symbolic executor (pyvc) for the list helpers of materialize_standard_op, _get_params_for_no_quant_op, insert_quant/insert_dequant dtype postconditions and the bit-width->dtype tables',
    level='proof',
-   text='Mode table (SRQ / DRQ / weight-only / blockwise rows x inbound x constant) of get_tensor_transformations for every constructible config (integers opaque => all widths); alignment / ignored-operand bookkeeping helpers of materialize_standard_op and the no-quantize path proved for all operand counts; inserted QUANTIZE/DEQUANTIZE convert between the dtypes their neighbours require; width->dtype tables. The composition of the helpers inside materialize_standard_op and the dtype algebra of the instruction list (_quant_params_to_transformation_insts, vertical optimisation, consumer grouping) are covered by labelled bounded stand-ins only.',
+   text='Mode table (SRQ / DRQ / weight-only / blockwise rows x inbound x constant) of get_tensor_transformations for every constructible config (integers opaque => all widths); alignment / ignored-operand bookkeeping helpers of materialize_standard_op and the no-quantize path proved for all operand counts; inserted QUANTIZE/DEQUANTIZE convert between the dtypes their neighbours require; width->dtype tables. The instruction generator: _apply_vertical_optimization, _produce_transformation_for_vertical_opt and the composition _quant_params_to_transformation_insts (layout of the instruction list, every callee under its whole precondition) are under contract. The composition of the helpers inside materialize_standard_op, and what consumer grouping and the second _produce_* builder compute (hence the dtype algebra of the whole instruction list), are covered by labelled bounded stand-ins only.',
    note='Bounded (not proved): materialize_standard_op as a whole (251,944 synthetic ops), instruction-list dtype algebra (<= 4 consumers, 2 parameter classes), bias / fp16 materialisation clauses. Serializer fidelity trusted for byte identity of untouched constants. A counting identity used as precondition of _merge_materialized_tensors is not machine checked.',
    design='§4 C03'),
  'C04': dict(
